@@ -20,6 +20,10 @@ TRUSTED = ["hand model of the firm loop / Python sum / mean(skipna), of the risk
            "matrix_weights_to_array and _scaling_to_weight_matrix in Model/Firm.lean (tied by correspondence only)"]
 ASSUMPTIONS = ["dyadic forecasts / observations / thresholds / weights so float + - * and comparisons are exact "
                "(probability thresholds of the risk matrix are arbitrary floats sent as exact rationals; sums to 1e-9)",
+               "storage dtypes (uint8/16/32, int8/16/32/64, float32/64 for fcst / obs / threshold arrays; Python int / float / numpy "
+               "scalar thresholds): the Lean Spec is evaluated on the exact VALUES (oracle only, the model has no dtypes); every "
+               "threshold / discount value is representable in the operands' dtypes (non-negative next to unsigned data)",
+               "severity labels are distinct, all str or all int, in ANY order (sent to Lean as their str())",
                "weights=None (apply_weights belongs to C03); equal coordinate label sets in any stored order",
                "dimension-name arguments are freshly built str objects (F10 regression guard)"]
 MANIFEST = dict(
@@ -47,14 +51,22 @@ MANIFEST = dict(
          "notes/C12.md N1, scaling_eq_spec_fails_outside_domain; tagged in the evidence, not failed); consequences: non-negativity, "
          "total mass, risk matrix score with these weights = sum over levels of w_l * (score of the level's corner decision points); "
          "matrix_weights_to_array / weights_from_warning_scaling are looked up BY LABEL (row = i-th largest threshold, column = "
-         "j-th supplied severity label: matrix_weights_lookup); the implementation is compared with the Lean Spec through the driver. "
+         "j-th supplied severity label: matrix_weights_lookup) with labels in any order (descending ints, strings whose order differs "
+         "from the sorted order), and risk_matrix_score with the weights built by either constructor = the Lean double sum over "
+         "(i-th largest threshold, j-th label as given); the implementation is compared with the Lean Spec through the driver. "
+         "FIRM on integer / unsigned / float32 storage: Lean Spec on the values (oracle only). "
          "weights= (apply_weights) belongs to C03.",
     technique="Lean 4 theorems over translator-regenerated kernels (two modules tied to a third through C11) + hand model; "
               "differential correspondence; exact-rational Spec oracle; relation FIRM = sum w * murphy_score between implementation runs",
     design="6/C12")
 RULE = ("FIRM: 2-D (a x b) dyadic fcst/obs (30 % obs copied from fcst), 1-3 thresholds as scalars or DataArrays over a subset of "
         "the dims with 50 % of values copied from fcst/obs and NaN, weights scalar or DataArray with NaN, alpha dyadic, "
-        "discount in {0, 0.25..2, inf}, both assignments; risk matrix: 1-3 severity categories x 1-3 probability thresholds, "
+        "discount in {0, 0.25..2, inf}, both assignments; storage-dtype stream: obs dtype x kind of first threshold (Python int / float, "
+        "np.int64 / np.uint8 / np.float32 scalar, array of dtype int64 / uint8 / uint16 / int8 / float32 / float64) x discount "
+        "(0 / finite, int or float / inf) cycled so every combination occurs, fcst dtype = obs dtype 50 %, small clustered integer "
+        "values (dyadic in float storage), a planted near false alarm 60 % / near miss 30 %, expected = Lean Spec on the values; "
+        "severity labels: docstring families / random str or int labels whose given order differs from the sorted order in ~2/3 "
+        "of the draws, probability thresholds in random order; risk matrix: 1-3 severity categories x 1-3 probability thresholds, "
         "fcst copied from a threshold 50 %, obs in {0,1,nan}; guards: fixed valid base with every parameter set exactly on / just "
         "inside / just outside its boundary (alpha 0, 1 as int/float/np.float64/np.float32/np.int64, discount 0 and < 0, weight 0 "
         "scalar and at each array position, no threshold, unequal lengths, invalid assignment; fcst/obs/probability-threshold "
@@ -131,14 +143,17 @@ def gen_firm(rng, mode=None):
 
 
 def _da(spec, na, nb):
+    """scalar: Python float as stored, or the number type named by "ty" (int / float / np.<dtype>);
+    array: DataArray of storage dtype "dt" (default float64)"""
     k = spec["kind"]
+    dt = spec.get("dt", "float")
     if k == "scalar":
-        return spec["v"]
+        return mk_num({"v": spec["v"], "ty": spec["ty"]}) if "ty" in spec else spec["v"]
     if k == "a":
-        return xr.DataArray(np.array(spec["v"], dtype=float), dims=["a"], coords={"a": list(range(na))})
+        return xr.DataArray(np.array(spec["v"], dtype=dt), dims=["a"], coords={"a": list(range(na))})
     if k == "b":
-        return xr.DataArray(np.array(spec["v"], dtype=float), dims=["b"], coords={"b": [10 + j for j in range(nb)]})
-    return xr.DataArray(np.array(spec["v"], dtype=float), dims=["a", "b"],
+        return xr.DataArray(np.array(spec["v"], dtype=dt), dims=["b"], coords={"b": [10 + j for j in range(nb)]})
+    return xr.DataArray(np.array(spec["v"], dtype=dt), dims=["a", "b"],
                         coords={"a": list(range(na)), "b": [10 + j for j in range(nb)]})
 
 
@@ -156,8 +171,9 @@ def _at(spec, i, j):
 def firm_inputs(c):
     na, nb = len(c["fcst"]), len(c["fcst"][0])
     coords = {"a": list(range(na)), "b": [10 + j for j in range(nb)]}
-    f = xr.DataArray(np.array(c["fcst"], dtype=float), dims=["a", "b"], coords=coords)
-    o = xr.DataArray(np.array(c["obs"], dtype=float), dims=["a", "b"], coords=coords).isel(a=c["perm_a"], b=c["perm_b"])
+    f = xr.DataArray(np.array(c["fcst"], dtype=c.get("fdt", "float")), dims=["a", "b"], coords=coords)
+    o = xr.DataArray(np.array(c["obs"], dtype=c.get("odt", "float")), dims=["a", "b"], coords=coords)
+    o = o.isel(a=c["perm_a"], b=c["perm_b"])
     return f, o, [_da(t, na, nb) for t in c["thresholds"]], [_da(w, na, nb) for w in c["weights"]]
 
 
@@ -200,9 +216,11 @@ def firm_compare(c, res, source):
     fails = []
     na, nb = len(c["fcst"]), len(c["fcst"][0])
     tags = {"d": core.fl_str(c["d"]), "mode": c["mode"], "source": source}
+    if "odt" in c:
+        tags.update(fcst_dtype=c["fdt"], obs_dtype=c["odt"], thresholds="+".join(sorted({th_kind(t) for t in c["thresholds"]})))
     try:
         r_all = call_firm(c, "none")
-        r_red = call_firm(c, c["reduce"])
+        r_red = r_all if c["reduce"] == "none" else call_firm(c, c["reduce"])
     except Exception as ex:  # noqa: BLE001
         return [("firm", "exception", core.exc_class(ex) + ": " + str(ex)[:200], "a Dataset", tags)]
     if set(r_all.data_vars) != {v for v, _ in FVARS}:
@@ -292,10 +310,122 @@ def tag_firm(ctx, c):
         ctx.tag("firm:array-threshold")
     if any(w["kind"] != "scalar" for w in c["weights"]):
         ctx.tag("firm:array-weight")
+    if "odt" in c:
+        ctx.tag("firm:obs-dtype=" + c["odt"])
+        ctx.tag("firm:fcst-dtype=" + c["fdt"])
+        for t in c["thresholds"]:
+            ctx.tag("firm:threshold=" + th_kind(t))
+        if c["odt"] in UNSIGNED and float(c["d"]) > 0 and any(
+                o < _at(t, i, j) for i in range(na) for j in range(nb) for o in [c["obs"][i][j]] for t in c["thresholds"]
+                if not core.is_nan(_at(t, i, j))):
+            ctx.tag("firm:unsigned-obs-below-threshold-discounted")
 
 
-def run_firm_batch(ctx, batch, kind, op, n, murphy=False, mode=None):
-    cs = [gen_firm(ctx.rng, mode=mode) for _ in range(n)]
+# ---- storage dtypes: the statement is about the VALUES, whatever numpy dtype stores fcst / obs / thresholds
+FIRM_DT = ["uint8", "uint16", "int8", "int64", "float32", "uint32", "int16", "uint8", "int32", "float64"]      # obs dtype cycle
+UNSIGNED = ("uint8", "uint16", "uint32")
+INT_DT = UNSIGNED + ("int8", "int16", "int32", "int64")
+TH_KINDS = ["int", "float", "np.int64", "np.uint8", "np.float32", "arr:int64", "arr:uint8", "arr:uint16", "arr:float32",
+            "arr:float64", "arr:int8"]
+
+
+def th_kind(t):
+    return ("arr:" + t.get("dt", "float64")) if t["kind"] != "scalar" else "scalar:" + t.get("ty", "float")
+
+
+def gen_firm_dtype(rng, k):
+    """k-th case of the storage-dtype stream: obs dtype, kind of the first threshold and kind of discount cycle with k
+    (every combination of the three appears), the rest is drawn.  Values are small integers (non-negative as soon as an
+    unsigned dtype takes part, so that no Python-int threshold is out of the dtype's range) or, in float storage, dyadic;
+    NaN only in float storage.  The expected value is the Lean Spec on these VALUES."""
+    odt = FIRM_DT[k % len(FIRM_DT)]
+    fdt = odt if rng.random() < 0.5 else rng.choice(FIRM_DT)
+    nonneg = odt in UNSIGNED or fdt in UNSIGNED
+    na, nb = rng.choice([1, 2, 3]), rng.choice([1, 2, 3, 4])
+    base = rng.randint(0, 9) if nonneg else rng.randint(-8, 4)      # clustered: distances to a threshold comparable with d
+    ipool = [base + rng.randint(0, 4) for _ in range(rng.randint(2, 5))]
+
+    def vdraw(dt):
+        v = rng.choice(ipool)
+        if dt in INT_DT:
+            return v
+        return float(v) + (rng.choice([0.25, 0.5, 0.75]) if rng.random() < 0.4 else 0.0)
+    fc = [[vdraw(fdt) for _ in range(nb)] for _ in range(na)]
+    ob = [[(fc[i][j] if (rng.random() < 0.3 and (odt not in INT_DT or float(fc[i][j]).is_integer())) else vdraw(odt))
+           for j in range(nb)] for i in range(na)]
+    if odt in INT_DT:
+        ob = [[int(v) for v in row] for row in ob]
+    pn = rng.choice([0, 0, 0, 0.15])
+    for i in range(na):
+        for j in range(nb):
+            if fdt not in INT_DT and rng.random() < pn:
+                fc[i][j] = NAN
+            if odt not in INT_DT and rng.random() < pn:
+                ob[i][j] = NAN
+    nt = rng.randint(1, 3)
+
+    def shape(kind, draw):
+        if kind == "a":
+            return [draw() for _ in range(na)]
+        if kind == "b":
+            return [draw() for _ in range(nb)]
+        return [[draw() for _ in range(nb)] for _ in range(na)]
+
+    def threshold(tk):
+        isint = tk in ("int", "np.int64", "np.uint8") or (tk.startswith("arr:") and tk[4:] in INT_DT)
+        unsigned = tk == "np.uint8" or (tk.startswith("arr:") and tk[4:] in UNSIGNED)
+
+        def tdraw():
+            r = rng.random()
+            if r < 0.1 and tk in ("arr:float32", "arr:float64"):
+                return NAN
+            v = rng.choice(ipool) + (0 if r < 0.55 else rng.choice([-1, 1, 2, -2]))
+            if nonneg or unsigned:
+                v = abs(v)
+            if not isint:
+                return float(v) + (rng.choice([0.5, -0.5, 0.25]) if rng.random() < 0.3 and v > 0 else 0.0)
+            return v
+        if tk.startswith("arr:"):
+            kind = rng.choice(["a", "b", "ab"])
+            return {"kind": kind, "v": shape(kind, tdraw), "dt": tk[4:]}
+        return {"kind": "scalar", "v": tdraw(), "ty": tk}
+    ths = [threshold(TH_KINDS[k % len(TH_KINDS)] if n == 0 else rng.choice(TH_KINDS + ["int", "int", "int", "float"]))
+           for n in range(nt)]
+    # plant a near false alarm (60 %) / near miss (30 %): the two operands 0-3 below and 0-2 above one threshold of the case
+    for below, above, pr in ((ob, fc, 0.6), (fc, ob, 0.3)):
+        i, j, t = rng.randrange(na), rng.randrange(nb), rng.choice(ths)
+        th = _at(t, i, j)
+        if rng.random() < pr and not core.is_nan(th):
+            lo, hi = int(math.floor(th)) - rng.choice([0, 1, 1, 2, 3]), int(math.ceil(th)) + rng.choice([0, 1, 1, 2])
+            if lo >= 0 or not nonneg:
+                below[i][j], above[i][j] = lo, hi
+
+    def wdraw():
+        return NAN if rng.random() < 0.1 else rng.choice([0.5, 1.0, 2.0, 3.0, 0.25])
+    ws = []
+    for _ in range(nt):
+        kind = rng.choice(["scalar", "scalar", "a", "b", "ab"])
+        if kind == "scalar":
+            ws.append(rng.choice([{"kind": kind, "v": rng.choice([0.5, 1.0, 2.0, 3.0, 0.25])},
+                                  {"kind": kind, "v": rng.choice([1, 2, 3]), "ty": "int"}]))
+        else:
+            ws.append({"kind": kind, "v": shape(kind, wdraw)})
+    dk = (k // len(FIRM_DT)) % 3
+    d = rng.choice([0, 0.0]) if dk == 0 else (rng.choice([1, 2, 4, 0.5, 1.5, 2.0, 0.25, 3]) if dk == 1 else core.INF)
+    perm_a = list(range(na)); rng.shuffle(perm_a)
+    perm_b = list(range(nb)); rng.shuffle(perm_b)
+    return dict(fcst=fc, obs=ob, fdt=fdt, odt=odt, alpha=rng.choice([0.25, 0.5, 0.75, 0.125, 0.875]), d=d,
+                mode=rng.choice(["lower", "upper"]), thresholds=ths, weights=ws, perm_a=perm_a, perm_b=perm_b,
+                reduce=rng.choice(["everything", "a", "none"]))
+
+
+def run_firm_dtype_batch(ctx, batch, kind, op, n):
+    k0 = ctx.rng.randrange(len(FIRM_DT) * len(TH_KINDS) * 3)
+    run_firm_batch(ctx, batch, kind, op, n, cases=[gen_firm_dtype(ctx.rng, k0 + k) for k in range(n)])
+
+
+def run_firm_batch(ctx, batch, kind, op, n, murphy=False, mode=None, cases=None):
+    cs = cases if cases is not None else [gen_firm(ctx.rng, mode=mode) for _ in range(n)]
     ops, spans = [], []
     for c in cs:
         o = firm_ops(c, op)
@@ -530,10 +660,40 @@ def firm_guard_batch(ctx, batch, kind, n_random):
 PROBS = [0.1, 0.25, 0.3, 0.5, 0.75, 0.9, 0.05, 0.625]
 
 
+# severity labels are LABELS: the j-th supplied label names the j-th column whatever its sort position
+LABEL_FAMILIES = [["S0", "S1", "S2"], [1, 2, 3], [30, 20, 10], ["MOD+", "SEV+", "EXT"], ["minor", "moderate", "major"],
+                  ["SEV+", "MOD+", "EXT"], [3, 1, 2], ["low", "high", "extreme"], [-1, -2, -3], ["b", "a", "C"]]
+LABEL_POOLS = [["MOD+", "SEV+", "EXT", "minor", "moderate", "major", "S0", "S1", "S2", "low", "high", "Z", "a"],
+               [0, 1, 2, 3, 5, 10, 20, 30, 100, -1, -5]]
+
+
+def gen_labels(rng, n):
+    """n distinct severity labels, all str or all int; in 2 of 3 draws their given order differs from their sorted order"""
+    r = rng.random()
+    if r < 0.5:
+        lab = list(rng.choice(LABEL_FAMILIES))[:n]
+    else:
+        lab = rng.sample(rng.choice(LABEL_POOLS), n)
+    if n > 1 and lab == sorted(lab) and rng.random() < 0.6:
+        lab = lab[::-1] if n == 2 or rng.random() < 0.5 else [lab[1], lab[2], lab[0]] if n == 3 else lab[::-1]
+    return lab
+
+
+def lab_str(sev):
+    return [str(x) for x in sev]
+
+
+def tag_labels(ctx, what, sev, probs=None):
+    ctx.tag(what + ":labels=" + ("int" if isinstance(sev[0], int) else "str") + ("-sorted" if list(sev) == sorted(sev) else "-unsorted"))
+    if probs is not None and len(probs) > 1:
+        ctx.tag(what + ":probs=" + ("increasing" if list(probs) == sorted(probs) else
+                                    "decreasing" if list(probs) == sorted(probs, reverse=True) else "unsorted"))
+
+
 def gen_rm(rng):
     ns, npr = rng.randint(1, 3), rng.randint(1, 3)
     probs = rng.sample(PROBS, npr)
-    sev = [f"S{k}" for k in range(ns)]
+    sev = gen_labels(rng, ns)
     ncase = rng.randint(1, 4)
     W = [[rng.choice([0.0, 1.0, 2.0, 0.5, 3.0]) for _ in range(ns)] for _ in range(npr)]
     if rng.random() < 0.08:
@@ -757,13 +917,13 @@ def gen_mw(rng, bad=False):
     r, c = rng.randint(1, 4), rng.randint(1, 3)
     M = [[float(rng.randint(0, 9)) for _ in range(c)] for _ in range(r)]
     probs = rng.sample(PROBS, r)
-    sev = [f"S{k}" for k in range(c)]
+    sev = gen_labels(rng, c)
     if bad:
         k = rng.choice(["rows", "cols", "p>=1", "p<=0"])
         if k == "rows":
             probs = probs + [0.45]
         elif k == "cols":
-            sev = sev + ["X"]
+            sev = sev + ([777] if isinstance(sev[0], int) else ["X"])
         elif k == "p>=1":
             probs[0] = rng.choice([1.0, 1.5])
         else:
@@ -777,7 +937,7 @@ def call_mw(c):
 
 
 def mw_op(c):
-    return {"op": "c12.mw", "args": {"M": [[core.fl_str(x) for x in row] for row in c["M"]], "sev": c["sev"],
+    return {"op": "c12.mw", "args": {"M": [[core.fl_str(x) for x in row] for row in c["M"]], "sev": lab_str(c["sev"]),
                                      "probs": [core.fl_str(p) for p in c["probs"]]}}
 
 
@@ -818,7 +978,7 @@ def gen_scaling(rng):
     nw = max(mx, 1) + rng.choice([0, 0, 1])
     w = [rng.choice([1.0, 2.0, 3.0, 0.5]) for _ in range(nw)]
     probs = rng.sample(PROBS, rows - 1)
-    sev = [f"S{k}" for k in range(cols - 1)]
+    sev = gen_labels(rng, cols - 1)
     return dict(S=S, w=w, probs=probs, sev=sev)
 
 
@@ -828,7 +988,7 @@ def call_scaling(c):
 
 
 def wfs_op(c):
-    return {"op": "c12.wfs", "args": {"S": c["S"], "w": [core.fl_str(x) for x in c["w"]], "sev": c["sev"],
+    return {"op": "c12.wfs", "args": {"S": c["S"], "w": [core.fl_str(x) for x in c["w"]], "sev": lab_str(c["sev"]),
                                       "probs": [core.fl_str(p) for p in c["probs"]]}}
 
 
@@ -882,6 +1042,61 @@ def scaling_level_sum(ctx, c, sp):
                  expected=parts, tags={"mode": c2["mode"]}, theorem="rm_score_scaling_eq_level_sum")
 
 
+# ---- risk matrix score with weights built by one of the two constructors = the Lean double sum over
+#      (i-th largest probability threshold, j-th severity label AS GIVEN) of weight * penalty
+def gen_built(rng, c, builder, W):
+    """c: a gen_mw / gen_scaling case; W: the weights the Lean statements attach to (i-th largest threshold, j-th supplied label)
+    (matrix_weights_lookup: the supplied matrix itself; weights_from_scaling_lookup: Spec.Firm.scalingWeights[Cut])"""
+    ns = len(c["sev"])
+    perm = list(range(ns)); rng.shuffle(perm)
+    return dict(c, check="built-rm", builder=builder, W=W, mode=rng.choice(["lower", "upper"]), perm_s=perm,
+                fcst=[[rng.choice(c["probs"] + [0.0, 1.0, 0.2, 0.6, 0.95]) for _ in range(ns)] for _ in range(3)],
+                obs=[[rng.choice([0.0, 1.0]) for _ in range(ns)] for _ in range(3)])
+
+
+def built_rm_op(c):
+    pd = sorted(c["probs"], reverse=True)
+    return {"op": "c12.rm", "args": {"mode": c["mode"],
+                                     "W": [[core.fl_str(p), [core.fl_str(x) for x in row]] for p, row in zip(pd, c["W"])],
+                                     "cases": [[[core.fl_str(f), core.fl_str(o)] for f, o in zip(rf, ro)]
+                                               for rf, ro in zip(c["fcst"], c["obs"])]}}
+
+
+def built_rm_values(c):
+    """risk_matrix_score of forecasts / observations labelled with the severity labels in the given order (observations stored
+    in a permuted order) with the weights returned by matrix_weights_to_array / weights_from_warning_scaling"""
+    from scores.emerging import risk_matrix_score
+    da = call_mw(c) if c["builder"] == "mw" else call_scaling(c)
+    coords = {"case": list(range(len(c["fcst"]))), "sev": c["sev"]}
+    f = xr.DataArray(np.array(c["fcst"], dtype=float), dims=["case", "sev"], coords=coords)
+    o = xr.DataArray(np.array(c["obs"], dtype=float), dims=["case", "sev"], coords=coords).isel(sev=c["perm_s"])
+    with np.errstate(all="ignore"):
+        r = risk_matrix_score(f, o, da, dimname("sev"), dimname("prob"), threshold_assignment=fresh(c["mode"]),
+                              preserve_dims=fresh("all"))
+    return [float(x) for x in r.sortby("case").values]
+
+
+def built_rm_fails(c, res):
+    try:
+        got = built_rm_values(c)
+    except Exception as ex:  # noqa: BLE001
+        return [("exception", core.exc_class(ex) + ": " + str(ex)[:200], res["spec"])]
+    if not all(core.close(g, e) for g, e in zip(got, res["spec"])):
+        return [("score-with-built-weights!=double-sum", got, res["spec"])]
+    return []
+
+
+def built_rm_batch(ctx, built):
+    res = core.run_driver("C12", [built_rm_op(c) for c in built]) if built else []
+    for c, r in zip(built, res):
+        ctx.case("weight-matrix-orientation", c, nontrivial=any(x not in ("0", "nan") for x in r["spec"]))
+        ctx.tag("built-rm:" + c["builder"])
+        for sig, ob, ex in built_rm_fails(c, r):
+            ctx.fail("weight-matrix-orientation", "property", "risk_matrix_score", sig, c, observed=ob, expected=ex,
+                     tags={"builder": c["builder"], "mode": c["mode"]},
+                     theorem="matrix_weights_lookup" if c["builder"] == "mw" else "weights_from_scaling_lookup")
+
+
 def scaling_spec(c):
     """declarative statement of the Appendix-B weights (independent of the loop in the code): level l puts its assessment
     weight w_l on the corner points of the staircase {S >= l}: decision point (row r counted from the bottom, severity column j)
@@ -907,6 +1122,7 @@ def scaling_spec(c):
 # ------------------------------------------------------------------------------------------ interface
 def correspondence(ctx):
     run_firm_batch(ctx, "impl-vs-model:firm", "correspondence", "c12.firm", ctx.n(120, 2500))
+    run_firm_dtype_batch(ctx, "impl-vs-model:firm-storage-dtypes", "correspondence", "c12.firm", ctx.n(24, 400))
     firm_guard_batch(ctx, "impl-vs-model:firm-guards", "correspondence", ctx.n(60, 600))
     rms = [gen_rm(ctx.rng) for _ in range(ctx.n(120, 2500))]
     res = core.run_driver("C12", [rm_op(c) for c in rms])
@@ -958,6 +1174,9 @@ def correspondence(ctx):
 def oracle(ctx, boost):
     m = 5 if boost else 1
     run_firm_batch(ctx, "impl-vs-spec:firm", "property", "c12.firm_spec", ctx.n(100, 2000) * (2 if boost else 1), murphy=True)
+    # storage dtypes of fcst / obs / thresholds (uint8 .. float32; thresholds as Python ints, floats, numpy scalars, arrays),
+    # discount 0 / finite / inf, both assignments: expected = the Lean Spec on the VALUES
+    run_firm_dtype_batch(ctx, "impl-vs-spec:firm-storage-dtypes", "property", "c12.firm_spec", ctx.n(72, 1500) * (2 if boost else 1))
     if boost:
         for mode in ("lower", "upper"):
             run_firm_batch(ctx, "impl-vs-spec:firm", "property", "c12.firm_spec", 80, murphy=True, mode=mode)
@@ -969,19 +1188,26 @@ def oracle(ctx, boost):
             ctx.tag("rm:nan-in-case")
         if any(f in c["probs"] for row in c["fcst"] for f in row):
             ctx.tag("rm:fcst==threshold")
+        tag_labels(ctx, "rm", c["sev"], c["probs"])
         for site, sig, ob, ex, tags in rm_compare(c, r, "spec"):
             ctx.fail("impl-vs-spec:risk_matrix_score", "property", site, sig, dict(c, check="rm"), observed=ob, expected=ex,
                      tags=tags, theorem="rm_case_eq_spec")
+    built = []
     for _ in range(ctx.n(60, 600) * m):
         c = gen_mw(ctx.rng)
         ctx.case("weight-matrix-orientation", c)
-        for site, sig, ob, ex, tags in mw_property(c):
+        tag_labels(ctx, "mw", c["sev"], c["probs"])
+        bad = mw_property(c)
+        for site, sig, ob, ex, tags in bad:
             ctx.fail("weight-matrix-orientation", "property", site, sig, dict(c, check="mw-property"), observed=ob, expected=ex,
-                     tags=tags, theorem="matrix_weights_rows_decreasing")
+                     tags=tags, theorem="matrix_weights_lookup" if sig == "row-not-ith-largest" else "matrix_weights_rows_decreasing")
+        if not any(sig == "exception" for _, sig, _, _, _ in bad):
+            built.append(gen_built(ctx.rng, c, "mw", c["M"]))
     scs = [gen_scaling(ctx.rng) for _ in range(ctx.n(40, 400) * m)]
     lean = scaling_lean_spec(scs)
     for c, sp in zip(scs, lean):
         ctx.case("weight-matrix-orientation", c)
+        tag_labels(ctx, "wfs", c["sev"], c["probs"])
         try:
             da = call_scaling(c)
         except Exception as ex:  # noqa: BLE001
@@ -1005,7 +1231,8 @@ def oracle(ctx, boost):
             # doc-domain-only: the loop's actual result (cut, N1) — or the level-set weights themselves, should N1 get repaired
             want = sp["spec"] if (sp["domain"] or got == sp["spec"]) else sp["cut"]
             bylabel = [[float(da.sel(prob=p, sev=s_).values) for s_ in c["sev"]] for p in sorted(c["probs"], reverse=True)]
-            if got != want or bylabel != want or [str(x) for x in da["sev"].values] != c["sev"]:
+            built.append(gen_built(ctx.rng, c, "wfs", want))
+            if got != want or bylabel != want or [str(x) for x in da["sev"].values] != lab_str(c["sev"]):
                 ctx.fail("weight-matrix-orientation", "property", "weights_from_warning_scaling",
                          "weights!=level-set-spec" if sp["domain"] else "weights!=cut-level-set-spec",
                          dict(c, check="scaling-property"), observed={"data": got, "by-label": bylabel,
@@ -1024,6 +1251,7 @@ def oracle(ctx, boost):
             ctx.fail("weight-matrix-orientation", "property", "weights_from_warning_scaling", "weights!=staircase-corners",
                      dict(c, check="scaling-property"), observed=got, expected=spec,
                      tags={"finding": "scaling-tall"} if tall else {})
+    built_rm_batch(ctx, built)
     scaling_probe(ctx)
     # the documented parameter domains on the implementation: boundary grid (deterministic) + random one/two-fault stream
     firm_guard_batch(ctx, "impl-vs-spec:firm-domain", "property", ctx.n(60, 600) * m)
@@ -1078,11 +1306,13 @@ def replay(ctx, payload):
         if sp["doc_domain"]:
             want = sp["spec"] if (sp["domain"] or got == sp["spec"]) else sp["cut"]
             bylabel = [[float(da.sel(prob=p, sev=s_).values) for s_ in case["sev"]] for p in sorted(case["probs"], reverse=True)]
-            if got != want or bylabel != want or [str(x) for x in da["sev"].values] != case["sev"]:
+            if got != want or bylabel != want or [str(x) for x in da["sev"].values] != lab_str(case["sev"]):
                 return True
             if sp["domain"] or not FINDINGS:
                 return False
         return got != scaling_spec(case)
+    if chk == "built-rm":
+        return bool(built_rm_fails(case, core.run_driver("C12", [built_rm_op(case)])[0]))
     if chk == "scaling-level-sum":
         total, parts = level_sum_values(case)
         return not all(core.close_ff(a, b) for a, b in zip(total, parts))
